@@ -62,6 +62,17 @@ def gen_cases(tier, seed):
         if ys is None:
             continue
         add({"variant": "v", "y": [str(v) for v in ys], "nd": "-3000", "api": "kernel", "grid": [sc.fl(g) for g in fgrid], "family": "vnear"})
+    # the special envelope value p = 1/2 (both sides weigh alike; the asymmetric contract still applies) through the accessor
+    for variant in ("vp", "vplc"):
+        for _ in range(2 if quick else 10):
+            n = rng.choice([8, 10, 12])
+            y = gaps(rng, series(rng, n, "season"), -3000, 0.1)
+            c = {"variant": variant, "y": [str(v) for v in y], "nd": "-3000", "api": "accessor", "p": sc.fl(0.5), "dims": ["time", "y", "x"]}
+            if variant == "vp":
+                c["grid"] = [sc.fl(-2.0 + 0.5 * k) for k in range(9)]
+            else:
+                c["lc"] = sc.fl(rng.choice([0.2, 0.8]))
+            add(c)
     # too few valid cells
     for nv in (0, 1):
         for variant in ("v", "vp", "vplc"):
